@@ -16,6 +16,8 @@
 
 #include <aws/common/byte_buf.h>
 #include <aws/common/cbor.h>
+#include <aws/common/clock.h>
+#include <aws/common/math.h>
 #include <aws/common/common.h>
 #include <aws/common/date_time.h>
 #include <aws/common/error.h>
@@ -31,7 +33,7 @@
 
 #define MAX_THREADS 8
 
-enum { M_DATE, M_URI, M_JSON, M_XML, M_CBOR, M_HASH };
+enum { M_DATE, M_URI, M_JSON, M_XML, M_CBOR, M_HASH, M_CLOCK };
 static int s_mode;
 static const char *s_prop = "C00";
 
@@ -442,6 +444,30 @@ static void round_hash(struct mon_rng *r, uint64_t *d) {
     aws_string_destroy(s);
 }
 
+/* tick conversions and checked arithmetic: every thread stays on ONE frequency pair (derived from its seed), different
+ * threads on different pairs, which is how callers use them */
+static void round_clock(struct mon_rng *r, uint64_t *d, uint64_t pair_seed) {
+    static const uint64_t FREQ[] = {1, 1000, 1000000, 1000000000, 48000, 44100, 60, 90000, 3, 1024};
+    uint64_t oldf = FREQ[pair_seed % 10], newf = FREQ[(pair_seed / 10) % 10];
+    for (int k = 0; k < 8; ++k) {
+        uint64_t ticks = mon_rand(r) >> mon_below(r, 64);
+        uint64_t rem = 0;
+        dg(d, aws_timestamp_convert_u64(ticks, oldf, newf, &rem));
+        dg(d, rem);
+        dg(d, aws_timestamp_convert_u64(ticks, oldf, newf, NULL));
+        static const enum aws_timestamp_unit U[] = {AWS_TIMESTAMP_SECS, AWS_TIMESTAMP_MILLIS, AWS_TIMESTAMP_MICROS, AWS_TIMESTAMP_NANOS};
+        rem = 0;
+        dg(d, aws_timestamp_convert(ticks, U[pair_seed % 4], U[(pair_seed / 4) % 4], &rem));
+        dg(d, rem);
+        uint64_t a = mon_rand(r), b = mon_rand(r) >> mon_below(r, 64), out = 0;
+        dg(d, (uint64_t)aws_mul_u64_checked(a, b, &out));
+        dg(d, aws_mul_u64_saturating(a, b));
+        dg(d, aws_add_u64_saturating(a, b));
+        size_t so = 0;
+        dg(d, (uint64_t)aws_add_size_checked((size_t)a, (size_t)b, &so));
+    }
+}
+
 static void workload(uint64_t seed, size_t rounds, uint64_t *digest) {
     struct mon_rng rng;
     mon_rng_seed(&rng, seed, 0x3717, (uint64_t)s_mode);
@@ -453,6 +479,7 @@ static void workload(uint64_t seed, size_t rounds, uint64_t *digest) {
             case M_JSON: round_json(&rng, &d); break;
             case M_XML: round_xml(&rng, &d); break;
             case M_CBOR: round_cbor(&rng, &d); break;
+            case M_CLOCK: round_clock(&rng, &d, seed); break;
             default: round_hash(&rng, &d); break;
         }
     }
@@ -544,7 +571,7 @@ int main(int argc, char **argv) {
         const char *name;
         int mode;
         const char *prop;
-    } MODES[] = {{"date", M_DATE, "C19"}, {"uri", M_URI, "C13"}, {"json", M_JSON, "C11"}, {"xml", M_XML, "C12"}, {"cbor", M_CBOR, "C10"}, {"hash", M_HASH, "C02"}};
+    } MODES[] = {{"date", M_DATE, "C19"}, {"uri", M_URI, "C13"}, {"json", M_JSON, "C11"}, {"xml", M_XML, "C12"}, {"cbor", M_CBOR, "C10"}, {"hash", M_HASH, "C02"}, {"clock", M_CLOCK, "C16"}};
     for (size_t i = 0; i < sizeof(MODES) / sizeof(MODES[0]); ++i) {
         if (!strcmp(mode, MODES[i].name)) {
             s_mode = MODES[i].mode;
